@@ -30,10 +30,44 @@ let parse_op s : aop =
   | _ -> failwith ("bad op " ^ s)
 let state_s (s : z list) =
   string_of_int (List.length s) ^ ";" ^ String.concat "," (List.map z_to_dec s)
+(* heap programs (collector switch):   hp|<nregs>|<op> <op> ...
+     A<dst>,<v>[,<path>]*   R<path>   W<path>,<v>   S<path>,<i>,<path>   M<dst>,<path>   D<dst>   C (forced collection: no model step)
+     path = root[.index]*        argv[1] = heap0 (no collector) | heap1 (collector: sweep_unreferenced before every operation)
+   output: ok | v<z> | bad  per operation *)
+let parse_path s : nat * nat list =
+  match List.map int_of_string (String.split_on_char '.' s) with
+  | r :: is -> (nat_of_int r, List.map nat_of_int is)
+  | [] -> failwith "bad path"
+let parse_gop s : gop option =
+  let rest = String.sub s 1 (String.length s - 1) in
+  let f = String.split_on_char ',' rest in
+  match s.[0], f with
+  | 'A', dst :: v :: ps -> Some (GAlloc (nat_of_int (int_of_string dst), z_of_dec v, List.map parse_path ps))
+  | 'R', [p] -> Some (GRead (parse_path p))
+  | 'W', [p; v] -> Some (GWrite (parse_path p, z_of_dec v))
+  | 'S', [p; i; q] -> Some (GSetField (parse_path p, nat_of_int (int_of_string i), parse_path q))
+  | 'M', [dst; p] -> Some (GMove (nat_of_int (int_of_string dst), parse_path p))
+  | 'D', [dst] -> Some (GDrop (nat_of_int (int_of_string dst)))
+  | 'C', _ -> None
+  | _ -> failwith ("bad heap op " ^ s)
+let gout_s = function GUnit -> "ok" | GVal v -> "v" ^ z_to_dec v | GBad -> "bad"
+let heap_case mode nregs ops =
+  let toks = List.filter (fun s -> s <> "") (String.split_on_char ' ' ops) in
+  let gops = List.map parse_gop toks in
+  let real = List.filter_map (fun x -> x) gops in
+  let (_, outs) = grun (mode = "heap1") g_collect O real (g_init (nat_of_int (int_of_string nregs))) in
+  (* re-insert the forced collections, which print ok *)
+  let rec merge gs os = match gs, os with
+    | [], _ -> []
+    | None :: r, _ -> "ok" :: merge r os
+    | Some _ :: r, o :: os' -> gout_s o :: merge r os'
+    | Some _ :: _, [] -> ["MODELERROR"] in
+  String.concat " | " (merge gops outs)
 let () =
   let mode = Sys.argv.(1) in
   read_lines (fun line ->
     match String.split_on_char '|' line with
+    | ["hp"; nregs; ops] -> print_string (heap_case mode nregs ops); print_newline ()
     | [_; init; ops] ->
       let s0 = List.map z_of_dec (split_on ',' init) in
       let ops = List.map parse_op (List.filter (fun s -> s <> "") (String.split_on_char ' ' ops)) in
